@@ -393,5 +393,87 @@ def orm_determinism(prog: Program) -> RuleResult:
     return r
 
 
+def _eq_identity_grounded(prog: Program, q: str, seen=None) -> bool:
+    """Can two *distinct* instances of class q compare equal?  False ('not grounded') if they can."""
+    seen = seen or set()
+    if q in seen or q not in prog.classes:
+        return False  # builtin / external value types compare by value; a cycle grounds nothing
+    seen = seen | {q}
+    c = prog.classes[q]
+    eqm = prog.lookup(q, "__eq__")
+    if eqm is not None:
+        rets = [n.value for n in walk_local(eqm.node) if isinstance(n, ast.Return) and n.value is not None]
+        txt = " ".join(src(x) for x in rets)
+        if any(isinstance(x, ast.Compare) and any(isinstance(o, ast.Is) for o in x.ops) and "self" in src(x) for v in rets for x in ast.walk(v)) and "==" not in txt:
+            return True
+        # attribute paths compared by the explicit __eq__: self.a.b == other.a.b -> ground the type of the last attribute
+        paths = set()
+        for v in rets:
+            for x in ast.walk(v):
+                if isinstance(x, ast.Attribute):
+                    chain = []
+                    y = x
+                    while isinstance(y, ast.Attribute):
+                        chain.append(y.attr)
+                        y = y.value
+                    if isinstance(y, ast.Name) and y.id == eqm.params[0]:
+                        paths.add(tuple(reversed(chain)))
+        maximal = {p_ for p_ in paths if not any(o != p_ and o[: len(p_)] == p_ for o in paths)}
+        ok = False
+        for path in maximal:
+            t = q
+            for a in path:
+                t = prog.field_type(t, a) if t in prog.classes else None
+            if t in prog.classes and _eq_identity_grounded(prog, t, seen):
+                ok = True
+        return ok
+    if c.is_dataclass or any(prog.classes[b].is_dataclass for b in prog.mro(q) if b in prog.classes):
+        own_dc = c.is_dataclass
+        if own_dc and c.decorator_kw("dataclass", "eq") is False:
+            return True
+        flds = [n for n, fi in prog.fields(q).items() if not fi.is_classvar and not fi.is_initvar and not (fi.field_kw("compare") is not None and getattr(fi.field_kw("compare"), "value", True) is False)]
+        return any(_field_grounded(prog, q, f, seen) for f in flds)
+    return True  # plain class without __eq__: object identity
+
+
+def _field_grounded(prog: Program, q: str, fld: str, seen) -> bool:
+    t = prog.field_type(q, fld)
+    if t in prog.classes:
+        return _eq_identity_grounded(prog, t, seen)
+    return False
+
+
+def orm_memo(prog: Program) -> RuleResult:
+    """A memoised method that mutates its receiver is a procedure that must run once *per object*: the cache key (the
+    receiver's equality) must not let two distinct objects compare equal, or the second generation in one process is skipped."""
+    from ..effects import write_summary
+
+    r = RuleResult("ORM-MEMO", "memoised generator steps are keyed by object identity", floor=1)
+    n = 0
+    for c in sorted(prog.classes.values(), key=lambda x: x.qual):
+        if ".ormatic." not in c.qual and ".class_diagrams." not in c.qual:
+            continue
+        summ = None
+        for name, f in sorted(c.methods.items()):
+            if not f.is_lru_cache or f.is_classmethod or f.is_staticmethod:
+                continue
+            summ = summ or write_summary(prog, c)
+            effectful = bool(summ.get(name)) or any(call_name(x) in ("append", "update", "add") for x in calls_in(f.node))
+            reads_state = any(isinstance(x, ast.Attribute) and isinstance(x.value, ast.Name) and x.value.id == f.params[0] for x in walk_local(f.node))
+            if not (effectful or reads_state):
+                continue
+            n += 1
+            grounded = _eq_identity_grounded(prog, c.qual)
+            r.check(
+                grounded, f"{c.name}.{name}#cache-key", site(f), f"@lru_cache on {c.name}.{name}",
+                "two distinct receivers never compare equal (equality is grounded in object identity)",
+                f"{c.name}.{name} is memoised per receiver, but {c.name} equality lets two distinct objects compare equal (no compared field is identity-based): the step is skipped for the "
+                f"second object - a second ORMatic run in the same process generates DAOs without columns and relationships",
+            )
+    if n == 0:
+        raise AnalysisError("ORM-MEMO: no memoised stateful method found (WrappedTable.parse_fields is the confirmed instance)")
+    return r
+
+
 def run(prog: Program, tier: str) -> List[RuleResult]:
-    return [wf_table(prog), orm_dispatch(prog), orm_imports(prog), orm_names(prog), orm_determinism(prog)]
+    return [wf_table(prog), orm_dispatch(prog), orm_imports(prog), orm_names(prog), orm_determinism(prog), orm_memo(prog)]
